@@ -269,3 +269,194 @@ def run_case(c):
             for cls, orig in saved: cls.serve = orig
         obs["vtime"] = sim.now()
     return obs
+
+
+# ---------------------------------------------------------------------------------------------------------------
+# sessions: SEQUENCES of logins through one BackEndClient (one connection to the authentication server) and one
+# Settings object.  The property quantifies over every login, not over every freshly made client: the k-th login
+# through a client that has already logged in other accounts (or failed to) must behave exactly like that login
+# on a fresh client.
+import contextvars
+_STEP = contextvars.ContextVar("c17_step", default=None)      # which step the running client-side task belongs to
+
+SESSION_KEYS = ("version", "client_version", "kd", "key_size", "ticket_version", "pid_size", "transport", "seed")
+GUEST_PASSWORD = "MMQea3n!fsik"      # what BackEndClient.login_guest supplies (a fact about the protocol's guest account)
+
+
+def new_obs():
+    return {"calls": [], "extra": [], "attempts": [], "accepts": [], "handler_pids": [], "client_pid": None, "probe": None, "error": None, "keys": []}
+
+
+def step_case(sess, k):
+    c = {key: sess[key] for key in SESSION_KEYS if key in sess}
+    c.update(sess["steps"][k])
+    return c
+
+
+class SessionProbe:
+    """like Probe, but the request names the step it belongs to, so that several open secure connections can be told apart"""
+    PROTOCOL_ID = PROBE_PROTOCOL
+    def __init__(self, out): self.out = out
+    async def logout(self, client): pass
+    async def handle(self, client, method_id, input, output):
+        k = input.u32()
+        (self.out["steps"][k] if k < len(self.out["steps"]) else self.out["stray"])["handler_pids"].append(client.pid())
+        output.u64(client.pid() if client.pid() is not None else 0xFFFFFFFFFFFFFFFF)
+
+
+def run_session(sess):
+    """one Settings object, `nclients` BackEndClients on one authentication server, the steps of `sess` logged in through
+    them: mode 'seq' = one after the other (each secure connection closed before the next login), 'hold' = one after the
+    other while the earlier secure connections stay open, 'conc' = all logins in flight at the same time (user names and
+    pids are distinct then).  Returns {"steps": [observation per step, same fields as run_case], "stray": {...}, "error"}."""
+    n = len(sess["steps"])
+    mode = sess.get("mode", "seq")
+    out = {"steps": [new_obs() for _ in range(n)], "stray": new_obs(), "error": None}
+    cases = [step_case(sess, k) for k in range(n)]
+    with Sim(sess.get("seed", 0)) as sim:
+        sim.install_factories()
+        s = make_settings(cases[0])                  # the ONE Settings object of the session
+        if sess.get("loss"):
+            seen = set()
+            def fate(tx):
+                if tx.data in seen: return [0.01]
+                seen.add(tx.data); return []
+            sim.net.fate = fate
+        recs = [None] * n
+        current = [None]                             # the step whose login is running (seq / hold)
+
+        def issue(k):
+            """the authentication server's account data and freshly issued tickets for step k"""
+            c = cases[k]
+            first, second = build_tickets(c, s, sim.rng, sim.clock.time())
+            out["steps"][k]["tickets"] = (first.hex(), second.hex())
+            placeholder = c["placeholder"]
+            sid = c.get("sid", 2 if placeholder else 1)
+            adv_host, adv_port = ("0.0.0.1", 1) if placeholder else (SECURE_HOST, SECURE_PORT)
+            station = common.StationURL(address=adv_host, port=adv_port, PID=SECURE_PID, CID=c.get("cid", 0), sid=sid, stream=10, type=2)
+            recs[k] = _Rec(c, out["steps"][k], first, second, station)
+
+        def resolve(username=None, pid=None):
+            if mode != "conc":
+                k = current[0]
+                if k is None or recs[k] is None: return None
+                c = cases[k]
+                # a protocol-following server knows its accounts: a call for somebody else is not answered with this account's data
+                if username is not None and username != c["username"]:
+                    out["stray"]["calls"].append("step %d: call for user %r while %r logs in" % (k, username, c["username"])); return None
+                if pid is not None and pid != c["pid"]:
+                    out["stray"]["calls"].append("step %d: requestTicket for pid %r while %r logs in" % (k, pid, c["pid"])); return None
+                return recs[k]
+            for k, c in enumerate(cases):
+                if recs[k] is not None and ((username is not None and c["username"] == username) or (pid is not None and c["pid"] == pid)):
+                    return recs[k]
+            out["stray"]["calls"].append("call for unknown user=%r pid=%r" % (username, pid))
+            return None
+
+        auth = make_auth_server_dyn(sess["version"], resolve)
+        probe = SessionProbe(out)
+
+        def owner_of_accept(pid):
+            if mode != "conc":
+                return out["steps"][current[0]] if current[0] is not None else out["stray"]
+            for k, c in enumerate(cases):
+                if c["pid"] == pid and not out["steps"][k]["accepts"]: return out["steps"][k]
+            return out["stray"]
+
+        saved = []
+        for cls in (prudp.PRUDPDatagramTransport, prudp.PRUDPSocketTransport):
+            orig = cls.serve
+            def wrapped(self, handler, port, type=10, key=None, _orig=orig, **kw):
+                async def h(client):
+                    if key is not None:
+                        owner_of_accept(client.pid())["accepts"].append((self.local_address() if hasattr(self, "local_address") else None, port, client.pid()))
+                    await handler(client)
+                return _orig(self, h, port, type, key, **kw)
+            saved.append((cls, orig)); cls.serve = wrapped
+        orig_connect = backend.rmc.connect
+        def connect_rec(settings, host, port, vport=1, context=None, credentials=None, servers=[]):
+            if credentials is not None:
+                k = _STEP.get()
+                (out["steps"][k] if k is not None else out["stray"])["attempts"].append(
+                    (host, port, vport, credentials.pid, credentials.cid, credentials.ticket.session_key.hex(), credentials.ticket.internal.hex()))
+            return orig_connect(settings, host, port, vport, context, credentials, servers)
+        orig_decrypt = kerberos.ClientTicket.decrypt.__func__
+        def decrypt_rec(cls, data, key, settings):
+            k = _STEP.get()
+            (out["steps"][k] if k is not None else out["stray"])["keys"].append(bytes(key).hex())
+            return orig_decrypt(cls, data, key, settings)
+
+        def login_cm(be, c):
+            if c.get("guest"): return be.login_guest()
+            kwargs = {}
+            if c.get("password") is not None: kwargs["password"] = c["password"]
+            if c["extra"]:
+                info = authentication.AuthenticationInfo()
+                info.token = "tok"; info.ngs_version = 3; info.token_type = 1; info.server_version = 0
+                kwargs["auth_info"] = info
+            return be.login(c["username"], **kwargs)
+
+        async def one_step(k, clients, stack=None, gate=None):
+            """log step k in; `stack` given = leave the secure connection open on it"""
+            c, o = cases[k], out["steps"][k]
+            _STEP.set(k)
+            be = clients[c.get("client", 0) % len(clients)]
+            try:
+                if mode != "conc": current[0] = k
+                issue(k)
+                if stack is not None:
+                    sc = await stack.enter_async_context(login_cm(be, c))
+                    o["client_pid"] = sc.pid()
+                    o["probe"] = struct.unpack("<Q", await sc.request(PROBE_PROTOCOL, 1, struct.pack("<I", k)))[0]
+                else:
+                    async with login_cm(be, c) as sc:
+                        o["client_pid"] = sc.pid()
+                        o["probe"] = struct.unpack("<Q", await sc.request(PROBE_PROTOCOL, 1, struct.pack("<I", k)))[0]
+                        if gate is not None:
+                            await gate()
+            except Exception as e:            # a failed login must leave the client usable: go on with the next step
+                o["error"] = exc_name(e)
+            finally:
+                _STEP.set(None)
+
+        async def main():
+            async with contextlib.AsyncExitStack() as stack:
+                transport = await stack.enter_async_context(prudp.serve_transport(s, AUTH_HOST, AUTH_PORT))
+                await stack.enter_async_context(rmc.serve_on_transport(s, [auth], transport, 1))
+                await stack.enter_async_context(rmc.serve_on_transport(s, [probe], transport, 2, key=SECURE_KEY))
+                await stack.enter_async_context(rmc.serve(s, [probe], SECURE_HOST, SECURE_PORT, vport=1, key=SECURE_KEY))
+                clients = [await stack.enter_async_context(backend.connect(s, AUTH_HOST, AUTH_PORT)) for _ in range(sess.get("nclients", 1))]
+                if mode == "seq":
+                    for k in range(n): await one_step(k, clients)
+                elif mode == "hold":
+                    async with contextlib.AsyncExitStack() as held:
+                        for k in range(n): await one_step(k, clients, stack=held)
+                else:
+                    # all logins in flight together; every secure connection stays open until all are through
+                    waiting = [0]; pending = [n]; ev = anyio.Event()
+                    def settle():
+                        if waiting[0] >= pending[0]: ev.set()
+                    async def gate():
+                        waiting[0] += 1; settle()
+                        await ev.wait()
+                    async def task(k):
+                        await one_step(k, clients, gate=gate)
+                        if out["steps"][k]["probe"] is None:      # failed before it reached the gate
+                            pending[0] -= 1; settle()
+                    async with anyio.create_task_group() as tg:
+                        for k in range(n): tg.start_soon(task, k)
+                current[0] = None
+
+        backend.rmc.connect = connect_rec
+        kerberos.ClientTicket.decrypt = classmethod(decrypt_rec)
+        try:
+            sim.run(main())
+        except BaseException as e:
+            if isinstance(e, (KeyboardInterrupt, SystemExit)): raise
+            out["error"] = exc_name(e)
+        finally:
+            backend.rmc.connect = orig_connect
+            kerberos.ClientTicket.decrypt = classmethod(orig_decrypt)
+            for cls, orig in saved: cls.serve = orig
+        out["vtime"] = sim.now()
+    return out
